@@ -5,6 +5,7 @@ import (
 	"go/ast"
 	"go/token"
 	"go/types"
+	"strconv"
 	"strings"
 
 	"czcheck/an"
@@ -42,6 +43,7 @@ var c16DropAllow = map[string]string{
 }
 
 func runC16(c *an.Ctx) {
+	r7EscapeUnconditional(c, "R4")
 	// ---- R1 case folding
 	if el := c.Fn("R1", "internal/seclang.(*Parser).evaluateLine"); el != nil {
 		ok := false
@@ -372,6 +374,20 @@ func runC16(c *an.Ctx) {
 				nTrim++
 			case "Trim", "TrimRight", "TrimLeft":
 				cs := an.Expr(cc.Args[1])
+				if lit, err := strconv.Unquote(cs); err == nil {
+					// a cut set is a set, not a prefix: Trim*(op, "!@") strips any run of '!' and '@' in any order,
+					// so a malformed marker (@@rx, @!rx, !@!streq) is accepted instead of being rejected
+					marks := map[rune]bool{}
+					for _, r := range lit {
+						if r != ' ' && r != '\t' && r != '\n' && r != '\r' {
+							marks[r] = true
+						}
+					}
+					nTrim++
+					if len(marks) >= 2 {
+						c.Bad("R4", "cut set of several marker characters in "+an.RelName(fn), in.Pos(), "strings."+cc.StaticCallee().Name()+" with cut set "+cs+" removes any run of these characters in any order, not the one marker sequence that was meant: text with a duplicated or misplaced marker (\"@@rx\", \"@!rx\") is accepted and silently reinterpreted instead of being rejected")
+					}
+				}
 				if strings.Contains(cs, `\\`) {
 					nTrim++
 					c.Bad("R4", "cut set containing a backslash in "+an.RelName(fn), in.Pos(), "strings."+cc.StaticCallee().Name()+" with cut set "+cs+" removes every trailing/leading backslash, not just the one that marks the continuation: a line broken right after an escape (\\d, \\., \\\\) silently loses it")
